@@ -24,10 +24,11 @@ var c05Defs = map[string]string{
 	"@t2": `"u" // {type: "@s"}`,
 	"@ku": `@s | @t`,
 	"@km": `@s | @t // {type: "mixed"}`,
+	"@S": `"upper-case s"`, // differs from @s by the case of a letter only (used in a few explicit sites)
 	"@v": "{ // {allOf: \"@o\"}\n\t\"own\": 1\n}",
 	"@w": "{\n\t\"w\": @w, // {optional: true}\n\t\"u\": @s | @o\n}",
 }
-var c05Refs = map[string][]string{"@s": nil, "@o": nil, "@p": {"@s"}, "@q": {"@p"}, "@r": {"@s"}, "@t": {"@s"}, "@t2": {"@s"}, "@ku": {"@s", "@t"}, "@km": {"@s", "@t"}, "@v": {"@o"}, "@w": {"@w", "@s", "@o"}}
+var c05Refs = map[string][]string{"@S": nil, "@s": nil, "@o": nil, "@p": {"@s"}, "@q": {"@p"}, "@r": {"@s"}, "@t": {"@s"}, "@t2": {"@s"}, "@ku": {"@s", "@t"}, "@km": {"@s", "@t"}, "@v": {"@o"}, "@w": {"@w", "@s", "@o"}}
 var c05All = []string{"@s", "@o", "@p", "@q", "@r", "@t", "@t2", "@ku", "@km", "@v", "@w"}
 var c05Extras = map[string]string{"@z1": `1`, "@z2": "{\n\t\"zz\": \"a\"\n}", "@z3": `1 // {or: [{type: "integer", min: 0}, {type: "boolean"}]}`}
 
@@ -72,6 +73,13 @@ func c05Sites() []c05Site {
 	for _, x := range objs {
 		out = append(out, c05Site{Pos: "allOf", Text: "{}", Ann: fmt.Sprintf(`{allOf: %q}`, x), Names: []string{x}})
 	}
+	// type names are case-sensitive: @S and @s are two types
+	out = append(out, c05Site{Pos: "case-sensitive-names", Text: `"v"`, Ann: `{or: ["@S", "@s"]}`, Names: []string{"@S", "@s"}})
+	out = append(out, c05Site{Pos: "case-sensitive-names", Text: `"v"`, Ann: `{or: [{type: "@s"}, {type: "@S"}]}`, Names: []string{"@s", "@S"}})
+	out = append(out, c05Site{Pos: "case-sensitive-names", Text: `@s | @S`, Names: []string{"@s", "@S"}})
+	// additionalProperties inside the rule-set of an `or` item
+	out = append(out, c05Site{Pos: "or-item-additionalProperties", Text: "{}", Ann: `{or: [{type: "object", additionalProperties: "@s"}, {type: "string"}]}`, Names: []string{"@s"}})
+	out = append(out, c05Site{Pos: "or-item-additionalProperties", Text: "{}", Ann: `{or: [{type: "string"}, {type: "object", additionalProperties: "@o"}]}`, Names: []string{"@o"}})
 	// names written with a JSON escape are the same names
 	out = append(out, c05Site{Pos: "escaped-name", Text: `"v"`, Ann: `{type: "\u0040s"}`, Names: []string{"@s"}})
 	out = append(out, c05Site{Pos: "escaped-name", Text: `"v"`, Ann: `{type: "@\u0074"}`, Names: []string{"@t"}})
